@@ -452,6 +452,49 @@ func jobTriples(c *rt.Ctx, prop string, zip bool) {
 		}
 	}
 	c.Require("negation-pairs")
+	// one caller buffer per argument, refilled between calls (slice identity is not content identity):
+	// a refused small-order / undecodable key, then an honest key in the SAME key buffer, and back
+	c.Require("buffer-reuse")
+	for vi, vs := range vAll {
+		if !c.Take() {
+			continue
+		}
+		c.Class("buffer-reuse")
+		c.Distinct(fmt.Sprintf("bufreuse %d", vi), true)
+		good := honestTriple(9000+vi, msgOf(1, vs), vs)
+		good2 := honestTriple(9100+vi, msgOf(1, vs), vs)
+		kb, sb := make([]byte, 32), make([]byte, 64)
+		modes := []bool{zip}
+		if prop == "C05" {
+			modes = []bool{false, true} // the relation between the modes is C05's: both, on the same buffers
+		}
+		for _, zip := range modes {
+			call := func(key, sig []byte, what string, want bool) {
+				copy(kb, key)
+				copy(sb, sig)
+				got, pv := func() (ok bool, pv interface{}) {
+					defer func() { pv = recover() }()
+					return VerifyWithOptions(kb, good.msg, sb, vs.opts(zip)), nil
+				}()
+				c.Step(1)
+				if pv != nil || got != want {
+					c.Violation(prop+" buffer-reuse "+what, fmt.Sprintf("%s verified from reused key / signature buffers (%s, zip215=%v): got %v want %v (panic %v)", what, vs, zip, got, want, pv), map[string]interface{}{"variant": vs.String(), "step": what})
+				}
+			}
+			for ri, rs := range sp.repl {
+				if ri%3 != vi%3 {
+					continue
+				}
+				t := triple{rs.b, good.msg, append(append([]byte{}, ptOf(big.NewInt(5), 0).Encode()...), ref.ToLE(big.NewInt(5), 32)...)}
+				exp, _ := modelVerify(t, vs, zip)
+				call(good.key, good.sig, "honest key first", true)
+				call(t.key, t.sig, "replacement key "+rs.name, exp)
+				call(good.key, good.sig, "honest key after "+rs.name, true)
+				call(good2.key, good2.sig, "second honest key", func() bool { ok, _ := modelVerify(triple{good2.key, good.msg, good2.sig}, vs, zip); return ok }())
+				call(t.key, t.sig, "replacement key again "+rs.name, exp)
+			}
+		}
+	}
 	c.Require("grid-orders-1-1", "grid-orders-8-8", "grid-orders-2-4", "grid-orders-4-8", "grid-orders-8-2")
 	// single-bit perturbations of accepted triples: every bit of key, signature and message
 	nb := 1
